@@ -1,7 +1,7 @@
 (** C16 - evaluations are deterministic and isolated from one another. The model has no hidden state: every public
     operation is a function of (registrations so far, the context passed in, the program); the theorems say which part of the
     state each operation can touch. The force of the check comes from the correspondence with the impl. *)
-From EE Require Import Chars OpTable Decimal Ast Value Names Lexer Parser Eval EvalLemmas.
+From EE Require Import Chars OpTable Decimal Ast Value Names Lexer Parser Eval EvalLemmas ExecInv.
 Open Scope N_scope.
 
 Section C16.
@@ -40,7 +40,28 @@ Proof.
   - intros H. apply assoc_cons_other. exact H.
 Qed.
 
+
+(* isolation: evaluating any program on context c leaves every other context c' exactly as it was - whatever the program,
+   the built-in and the user handlers do - unless a handler itself evaluates on c' (the re-entry function is the only door) *)
+Theorem C16_other_contexts_untouched : forall reenter c c' X e st, c <> c' ->
+  (forall s c0 st', ctx_of st' c' = X -> ctx_of (snd (reenter s c0 st')) c' = X) ->
+  ctx_of st c' = X -> ctx_of (snd (exec b reenter e c st)) c' = X.
+Proof.
+  intros reenter c c' X e st Hne HR H.
+  apply (inv_exec b reenter c (fun st => ctx_of st c' = X)); try assumption; clear - Hne.
+  - intros st h args E. exact E.
+  - intros st i E. exact E.
+  - intros st n v E. unfold ctx_set, ctx_of in *. cbn [s_ctxs set_ctxs nassoc].
+    destruct (N.eqb_spec c' c); [congruence | exact E].
+  - intros st E. unfold ensure_init. destruct (s_inited st); exact E.
+  - intros st n h E. exact E.
+  - intros st n h E. exact E.
+  - intros st n h E. exact E.
+  - intros st n cfg h E. exact E.
+Qed.
+
 End C16.
+Print Assumptions C16_other_contexts_untouched.
 Print Assumptions C16_parse_pure.
 Print Assumptions C16_parse_deterministic.
 Print Assumptions C16_assignment_frame.
